@@ -22,7 +22,11 @@ void harness(void) {
     for(i = 0; i < NB; i++) { if(bytes[i] == 0) break; ASSUME(alpha(bytes[i])); len++; }
     for(i = 0; i < NB; i++) if(i > len) ASSUME(bytes[i] == 0);
     r = w_scan(WHICH, bytes, &pos, &outlen);
+#ifdef GLS_CONTRACT
+    OBS("bytes=[%s] r=%d pos=%ld", bytes, r, pos);   /* the collected text is outside the contract of GetLiteralStr */
+#else
     OBS("bytes=[%s] r=%d pos=%ld outlen=%d", bytes, r, pos, outlen);
+#endif
     CHECK(pos >= 0 && pos <= len, "stream position stays inside the input");
     VERIF_END();
 }
